@@ -92,7 +92,7 @@ pub fn timer_jobs(thorough: bool) -> Vec<Job> {
     let mut v = vec![];
     let k = if thorough { 4 } else { 3 };
     // deadlines clock0+{1,2,3}; delays {0 ms, 1 ms, Duration::MAX}
-    v.push(job(Cfg::new("timer.local", &[("k", k), ("clock0", 0), ("deadlines", 0b1110), ("delays", 0b10_0000_0011), ("span", 4)]), false, thorough));
+    v.push(job(Cfg::new("timer.local", &[("k", k), ("clock0", 0), ("deadlines", 0b1110), ("delays", 0b11_0000_0011), ("span", 4)]), false, thorough));
     v.push(job(Cfg::new("timer.std", &[("k", k), ("clock0", 0), ("deadlines", 0b1110), ("delays", 0b10_0000_0010), ("span", 3)]), false, thorough));
     v.push(job(Cfg::new("timer.local", &[("k", 3), ("clock0", 5), ("deadlines", 0b0110), ("delays", 0b10_0000_0011), ("span", 3)]), false, thorough));
     v
@@ -158,8 +158,79 @@ pub fn ds_jobs(thorough: bool) -> Vec<Job> {
     v
 }
 
+/// many simultaneous waiters, small alphabet: thresholds that only show with
+/// "any number of concurrent waiters" (e.g. an allocation when more than N
+/// waiters are woken at once)
+pub fn wide_jobs(thorough: bool) -> Vec<Job> {
+    let mut v = vec![];
+    let k = if thorough { 7 } else { 6 };
+    v.push(job(Cfg::new("event.local", &[("set", 0), ("k", k)]), false, thorough));
+    v.push(job(Cfg::new("mutex.local", &[("fair", 1), ("k", k)]), false, thorough));
+    v.push(job(Cfg::new("mutex.std", &[("fair", 0), ("k", k - 1)]), false, thorough));
+    v.push(job(Cfg::new("sem.local", &[("fair", 1), ("permits", 0), ("k", k - 1), ("sizes", 0b10), ("cap", 2), ("rels", 0)]), false, thorough));
+    v.push(job(Cfg::new("sem.shared", &[("fair", 0), ("permits", 0), ("k", k - 1), ("sizes", 0b10), ("cap", 2), ("rels", 0)]), false, thorough));
+    v.push(job(Cfg::new("oneshot.local", &[("k", k), ("sends", 1), ("handles", 1)]), false, thorough));
+    v.push(job(Cfg::new("bcast.shared", &[("k", k), ("sends", 1), ("handles", 1)]), false, thorough));
+    v.push(job(Cfg::new("state.local", &[("k", k - 1), ("sends", 1), ("handles", 1)]), false, thorough));
+    v.push(job(Cfg::new("timer.local", &[("k", k - 1), ("clock0", 0), ("deadlines", 0b0110), ("delays", 0), ("span", 2)]), false, thorough));
+    // mpmc: many parked receivers / many parked senders, then close / send / receive
+    v.push(job(Cfg::new("mpmc.arrL1", &[("cap", 1), ("ks", 0), ("kr", k), ("values", 1), ("stream", 0)]), false, thorough));
+    v.push(job(Cfg::new("mpmc.arrL0", &[("cap", 0), ("ks", k - 1), ("kr", 0), ("values", (k - 1) as i64), ("stream", 0)]), false, thorough));
+    if thorough {
+        v.push(job(Cfg::new("mpmc.shFix", &[("cap", 1), ("ks", 5), ("kr", 0), ("values", 6), ("stream", 0), ("handles", 1)]), false, thorough));
+        v.push(job(Cfg::new("mpmc.arrL0", &[("cap", 0), ("ks", 5), ("kr", 1), ("values", 5), ("stream", 0)]), false, thorough));
+    }
+    v
+}
+
+/// small configurations of every primitive for the memory-safety pass
+/// (valgrind, dropped futures really freed)
+pub fn valgrind_jobs(big: bool) -> Vec<Job> {
+    let mut v = vec![];
+    for fair in [1, 0] {
+        v.push(job(Cfg::new("mutex.std", &[("fair", fair), ("k", if big { 3 } else { 2 })]), false, true));
+        if big {
+            v.push(job(Cfg::new("sem.std", &[("fair", fair), ("permits", 0), ("k", 2), ("sizes", 0b110), ("cap", 2), ("rels", 1)]), false, true));
+        }
+    }
+    v.push(job(Cfg::new("event.std", &[("set", 0), ("k", if big { 3 } else { 2 })]), false, true));
+    v.push(job(Cfg::new("oneshot.std", &[("k", 2), ("sends", 2), ("handles", 2)]), false, true));
+    v.push(job(Cfg::new("bcast.shared", &[("k", 2), ("sends", 1), ("handles", 2)]), false, true));
+    v.push(job(Cfg::new("timer.std", &[("k", 2), ("clock0", 0), ("deadlines", 0b0110), ("delays", 0b10), ("span", 2)]), false, true));
+    if big {
+        v.push(job(Cfg::new("sem.shared", &[("fair", 1), ("permits", 1), ("k", 2), ("sizes", 0b010), ("cap", 2), ("rels", 1)]), false, true));
+        v.push(job(Cfg::new("state.shared", &[("k", 2), ("sends", 1), ("handles", 2)]), false, true));
+        v.push(job(Cfg::new("mpmc.arrS1", &[("cap", 1), ("ks", 1), ("kr", 1), ("values", 2), ("stream", 0)]), false, true));
+        v.push(job(Cfg::new("mpmc.arrS0", &[("cap", 0), ("ks", 1), ("kr", 1), ("values", 2), ("stream", 0)]), false, true));
+        v.push(job(Cfg::new("mpmc.shGrow", &[("cap", 1), ("ks", 1), ("kr", 1), ("values", 2), ("stream", 0), ("handles", 1)]), false, true));
+    } else {
+        v.push(job(Cfg::new("mpmc.arrS1", &[("cap", 1), ("ks", 1), ("kr", 1), ("values", 1), ("stream", 0)]), false, true));
+    }
+    v
+}
+
+/// reduced-bound E-DS configurations for Miri
+pub fn miri_jobs(prop: &str) -> Vec<Job> {
+    let mut v = vec![];
+    if prop == "C19" {
+        for cap in [0i64, 2, 3] {
+            let name: &'static str = ["ring.arr0", "ring.arr1", "ring.arr2", "ring.arr3"][cap as usize];
+            v.push(job(Cfg::new(name, &[("cap", cap), ("len", 7)]), true, true));
+        }
+        v.push(job(Cfg::new("ring.fix", &[("cap", 2), ("len", 5)]), true, true));
+        v.push(job(Cfg::new("ring.grow", &[("cap", 2), ("len", 5)]), true, true));
+    } else {
+        // Miri executes ~4 transitions/s of this harness: keep it to a few hundred transitions
+        v.push(job(Cfg::new("ds.list", &[("n", 4)]), false, true));
+        v.push(job(Cfg::new("ds.heap", &[("n", 4), ("fixed_keys", 1001)]), false, true));
+        v.push(job(Cfg::new("ds.heap", &[("n", 5), ("fixed_keys", 10201)]), false, true));
+    }
+    v
+}
+
 pub fn all_jobs(thorough: bool) -> Vec<Job> {
     let mut v = vec![];
+    v.extend(wide_jobs(thorough));
     v.extend(mutex_jobs(thorough, false));
     v.extend(sem_jobs(thorough, false));
     v.extend(event_jobs(thorough));
@@ -172,6 +243,12 @@ pub fn all_jobs(thorough: bool) -> Vec<Job> {
 
 pub fn plan(prop: &str, tier: &str) -> Vec<Job> {
     let t = tier == "thorough";
+    if tier == "valgrind" || tier == "valgrind-big" {
+        return valgrind_jobs(tier == "valgrind-big");
+    }
+    if tier == "miri" {
+        return miri_jobs(prop);
+    }
     match prop {
         "C01" | "C17" | "C18" => all_jobs(t),
         "C19" => ring_jobs(t),
@@ -185,7 +262,11 @@ pub fn plan(prop: &str, tier: &str) -> Vec<Job> {
         "C15" => timer_jobs(t),
         "C08" | "C10" => mpmc_jobs(t, true),
         "C09" => mpmc_jobs(t, false),
-        "C14" => event_jobs(t),
+        "C14" => {
+            let mut v = event_jobs(t);
+            v.push(job(Cfg::new("event.local", &[("set", 0), ("k", if t { 7 } else { 6 })]), false, t));
+            v
+        }
         "C12" => oneshot_jobs(t),
         "C13" => state_jobs(t),
         "C02" => mutex_jobs(t, false),
